@@ -84,7 +84,8 @@ func main() {
 		os.Exit(replay(*replayFile, *tier))
 	}
 
-	sysNames := []string{"MemFS", "OrefaFS"}
+	// the smaller system first: what it leaves of its share of the budget goes to the larger one
+	sysNames := []string{"OrefaFS", "MemFS"}
 	if *systems != "" {
 		sysNames = strings.Split(*systems, ",")
 	}
